@@ -2158,7 +2158,15 @@ class DecodedStr:
             if isinstance(op, ast.Eq):
                 return r
             return Sym(z3.Not(ZB(r))) if isinstance(r, Sym) else (not r)
-        return NotImplemented
+        # ordering: str order is code-point lexicographic and UTF-8 preserves it, so it equals the byte order of the encodings
+        if isinstance(other, str):
+            ob = other.encode()
+        elif isinstance(other, DecodedStr):
+            ob = other.b
+        else:
+            return NotImplemented
+        a, b = (ob, self.b) if refl else (self.b, ob)
+        return eng.bytes_order(op, a, b)
 
     def __init__(self, b):
         self.b = b
